@@ -46,7 +46,7 @@
 
     Side conditions of [force_backup_spec] (see Props/C17.v):
     - the original at p was not a directory (otherwise the backup copy is a
-      directory and [try_remove_backup] walks it: not covered);
+      directory and [try_remove_backup] walks it: covered by Proofs/BackupForceDir.v);
     - [parents_original]: if p is tracked as "did not exist" and exists now,
       its parent directories existed when the transaction began.  If a parent
       was created in the transaction it is not in the backup and the copy of p
